@@ -83,6 +83,8 @@ class CreateInsertExtractor(BaseExtractor):
                             if identifier := sub_segment.get_child("identifier"):
                                 sub_segment = identifier
                         columns.append(SqlFluffColumn.of(sub_segment))
+                    # an explicit column list wins over the target columns taken from metadata
+                    holder.graph.remove_nodes_from(holder.write_columns)
                     holder.add_write_column(*columns)
 
             elif segment.type == "keyword":
